@@ -991,6 +991,60 @@ def split_curve(obj, param, **kwargs):
     return ret_val
 
 
+def _clamp_ends(obj, idx, **kwargs):
+    """ Expresses a curve or a surface with clamped end knots in the given parametric direction.
+
+    The Bezier decomposition splits at the interior knots only. A shape with unclamped end knots is therefore restricted to
+    its domain first: both domain ends are inserted until their multiplicity is equal to the degree and the knots and the
+    control points which have no influence on the domain are dropped. Clamped shapes are returned as they are.
+
+    :param obj: curve or surface
+    :param idx: parametric direction; 0 for u, 1 for v
+    :return: the input shape if it is clamped in this direction, otherwise a new clamped shape of the same type
+    """
+    is_curve = isinstance(obj, abstract.Curve)
+    degree = obj.degree if is_curve else obj.degree[idx]
+    kv = obj.knotvector if is_curve else obj.knotvector[idx]
+    start, stop = kv[degree], kv[-(degree + 1)]
+    if (kv[0] == start and kv[-1] == stop) or not start < stop:
+        return obj
+
+    # Raise the multiplicity of both domain ends to the degree
+    insert_knot_func = kwargs.get('insert_knot_func', insert_knot)
+    for knot in (start, stop):
+        kv = obj.knotvector if is_curve else obj.knotvector[idx]
+        s = helpers.find_multiplicity(knot, kv, tol=0.0)
+        if s < degree:
+            param = [None for _ in range(obj.pdimension)]
+            num = [0 for _ in range(obj.pdimension)]
+            param[idx], num[idx] = knot, degree - s
+            insert_knot_func(obj, param, num=num, check_num=False)
+
+    # The basis functions which end at the first domain knot or start at the last one vanish on the domain
+    kv = obj.knotvector if is_curve else obj.knotvector[idx]
+    front = len([k for k in kv if k <= start]) - (degree + 1)
+    back = len([k for k in kv if k >= stop]) - (degree + 1)
+    kv_new = [start for _ in range(degree + 1)] + [k for k in kv if start < k < stop] + [stop for _ in range(degree + 1)]
+
+    # Create the clamped shape
+    ret = obj.__class__()
+    if is_curve:
+        cpts = obj.ctrlptsw if obj.rational else obj.ctrlpts
+        ret.degree = obj.degree
+        ret.set_ctrlpts(list(cpts[front:len(cpts) - back]))
+        ret.knotvector = kv_new
+    else:
+        cpts2d = obj.ctrlpts2d
+        ret.degree_u, ret.degree_v = obj.degree_u, obj.degree_v
+        if idx == 0:
+            ret.ctrlpts2d = cpts2d[front:len(cpts2d) - back]
+            ret.knotvector_u, ret.knotvector_v = kv_new, obj.knotvector_v
+        else:
+            ret.ctrlpts2d = [row[front:len(row) - back] for row in cpts2d]
+            ret.knotvector_u, ret.knotvector_v = obj.knotvector_u, kv_new
+    return ret
+
+
 @export
 def decompose_curve(obj, **kwargs):
     """ Decomposes the curve into Bezier curve segments of the same degree.
@@ -1010,7 +1064,7 @@ def decompose_curve(obj, **kwargs):
         raise GeomdlException("Input shape must be an instance of abstract.Curve class")
 
     multi_curve = []
-    curve = copy.deepcopy(obj)
+    curve = _clamp_ends(copy.deepcopy(obj), 0, **kwargs)
     knots = curve.knotvector[curve.degree + 1:-(curve.degree + 1)]
     while knots:
         knot = knots[0]
@@ -1266,6 +1320,7 @@ def decompose_surface(obj, **kwargs):
     """
     def decompose(srf, idx, split_func_list, **kws):
         srf_list = []
+        srf = _clamp_ends(srf, idx, **kws)
         knots = srf.knotvector[idx][srf.degree[idx] + 1:-(srf.degree[idx] + 1)]
         while knots:
             knot = knots[0]
